@@ -38,7 +38,7 @@ class _Run:
         self.skip = tuple(skip_classes or ())
         self.only = only_class
         self.cases = self.distinct = 0
-        self.skipped, self.detail = {}, {}
+        self.skipped, self.detail, self.stats = {}, {}, {}
 
     @staticmethod
     def _m(cls, pat):
@@ -67,6 +67,8 @@ class _Run:
             r["skipped"] = dict(self.skipped)
         if self.detail:
             r["skipped_detail"] = self.detail
+        if self.stats:
+            r["stats"] = self.stats
         return r
 
 
@@ -577,9 +579,10 @@ def _integral(fl, R, rng, budget, seed=0, **kw):
         s_, m_, l_ = (got.get(k, NAN) for k in ("SmallestOfMaximum", "MeanOfMaximum", "LargestOfMaximum"))
         if orc is not None and not (s_ != s_ or m_ != m_ or l_ != l_) and not (s_ <= m_ + tol and m_ <= l_ + tol):
             R.fail("integral-order", "SOM <= MOM <= LOM", (s_, m_, l_), f"{call0}; [fl.{{D}}({r}).defuzzify(agg, {lo!r}, {hi!r}) for D in SOM, MOM, LOM]")
-        # translation of set and range by c: only continuous, well-conditioned sets (a discontinuity next to a sample point or a
-        # tiny total membership makes the relation ill-conditioned in floating point) and |c| <= 100 widths
-        if orc is not None and "Centroid" in got and nt and all(s[3] for s in specs) and sum(mu) > 1e-3 and case % 2 == 0:
+        # translation of set and range by c: only continuous, well-conditioned sets (a discontinuous term or norm next to a sample
+        # point or a tiny total membership makes the relation ill-conditioned in floating point) and |c| <= 100 widths
+        if orc is not None and "Centroid" in got and nt and all(s[3] for s in specs) and sum(mu) > 1e-3 and case % 2 == 0 \
+                and not any(x.startswith(("Nilpotent", "Drastic")) for x in inn + [an]):
             c = rng.choice([1.0, -3.0, 0.375, rng.uniform(-100, 100)]) * (hi - lo)
             agg2, _ = build(shift=c)
             call = f"{src(degs, c)}; fl.Centroid({r}).defuzzify(agg, {lo + c!r}, {hi + c!r})  # original set: centroid {got['Centroid']!r}, c = {c!r}"
@@ -616,7 +619,7 @@ def _integral(fl, R, rng, budget, seed=0, **kw):
                     if N == 1 and np.size(z) == 1:
                         R.fail(f"integral-batch-shape-N1:{D}", "shape (1,)", f"shape {np.shape(z)}", call)
                     else:
-                        R.fail(f"integral-batch-shape:{D}:r={'1' if rb == 1 else '>1'}", f"shape ({N},): one result per set", f"shape {np.shape(z)}: {z!r}", call)
+                        R.fail(f"integral-batch-shape:{D}:{'r=1' if rb == 1 else 'r>1'}", f"shape ({N},): one result per set", f"shape {np.shape(z)}: {z!r}", call)
                         continue
                 zs = [float(v) for v in np.ravel(z)]
                 for i in range(N):
@@ -662,6 +665,7 @@ def gen_fll(seed, idx):
             s += ["  aggregation: " + rng.choice(["none", "none", "Maximum", "UnboundedSum", "AlgebraicSum"]),
                   "  defuzzifier: " + ["WeightedAverage", "WeightedSum"][(idx // 24 + o) % 2] + rng.choice(["", "", " Automatic", " TakagiSugeno" if kind == "ts" else " Tsukamoto"])]
         s += [f"  default: {rng.choice([lo, (lo + hi) / 2, hi + 1.0]) if dflt else 'nan'}", f"  lock-previous: {'true' if lockp else 'false'}"]
+        off = lambda: (lambda c: f"{'+' if c >= 0 else '-'} {abs(c)}")(round(rng.uniform(lo, hi), 3))   # noqa: no unary minus in Function
         for k in range(rng.choice([2, 3])):
             if kind == "integral":
                 c, p, _, _ = _rand_term(rng, lo, hi)
@@ -672,8 +676,8 @@ def gen_fll(seed, idx):
             else:
                 body = rng.choice([f"Constant {rng.choice([lo, hi, rng.uniform(lo, hi)])!r}",
                                    "Linear " + " ".join(repr(round(rng.uniform(-2, 2), 3)) for _ in range(n_in + 1)),
-                                   f"Function {round(rng.uniform(-2, 2), 3)}*i0 + {round(rng.uniform(lo, hi), 3)}",
-                                   f"Function sin(i{n_in - 1}) * i0 + {round(rng.uniform(lo, hi), 3)}"])
+                                   f"Function {round(rng.uniform(0, 2), 3)}*i0 {off()}",
+                                   f"Function sin(i{n_in - 1}) * i0 {off()}"])
             s.append(f"  term: u{k} {body}"); names.append(f"u{k}")
         outs.append((f"o{o}", names, kind))
     impl = rng.choice(_TNORMS) if any(k == "integral" for _, _, k in outs) else rng.choice(["none", "none", "AlgebraicProduct", "Minimum"])
@@ -682,8 +686,10 @@ def gen_fll(seed, idx):
         props = []
         for _ in range(rng.choice([1, 1, 2])):
             v, names, _, _ = rng.choice(ins)
-            h = " ".join(rng.choice(_HEDGES) for _ in range(rng.choice([0, 0, 0, 1, 2])))
-            props.append(f"{v} is {h + ' ' if h else ''}{rng.choice(names)}")
+            h = [rng.choice(_HEDGES) for _ in range(rng.choice([0, 0, 0, 1, 2]))]
+            if "any" in h:   # `any` is the last hedge and takes no term
+                h = [x for x in h if x != "any"] + ["any"]
+            props.append(f"{v} is {' '.join(h + ([] if 'any' in h else [rng.choice(names)]))}")
         ante = props[0] if len(props) == 1 else f"{props[0]} {rng.choice(['and', 'or'])} {props[1]}"
         cons = " and ".join(f"{v} is {rng.choice(['', '', '', 'very ', 'not '])}{rng.choice(names)}" for v, names, _ in (outs if rng.random() < 0.7 else outs[:1]))
         s.append(f"  rule: if {ante} then {cons}" + rng.choice(["", "", f" with {rng.choice([0.5, 0.25, 1.0])}"]))
@@ -750,9 +756,11 @@ def _batch(fl, R, rng, budget, seed=0, engines=None, **kw):
             elif u < 0.42:
                 j = rng.randrange(n); row[j] = rng.choice([ranges[j][0] - 1.5, ranges[j][1] + 1.5, ranges[j][1] * 3 + 7])
             return row
-        for N, warm in ((1, False), (2, True), (3, False), (7, True), (3, True), (2, False)):
+        for N, warm, N2 in ((1, False, 0), (2, True, 0), (3, False, 2), (7, True, 0), (3, True, 1), (2, False, 0)):
             R.cases += 1
-            rows = [rnd_row() for _ in range(N)]
+            segs = [[rnd_row() for _ in range(k)] for k in (N, N2) if k]   # a second batch continues from the state left by the first
+            oned = rng.random() < 0.5   # documented 1-d forms of Engine.input_values: one variable / one row
+            segs_c = [[r[0] for r in sg] if (oned and n == 1) else (sg[0] if (oned and len(sg) == 1) else sg) for sg in segs]
             warm_row = None
             start = copy.deepcopy(base)
             start.restart()
@@ -764,56 +772,69 @@ def _batch(fl, R, rng, budget, seed=0, engines=None, **kw):
                     start.process()
                 except Exception:
                     continue
-            pre = f"{src}; e.restart(); " + (f"[setattr(v, 'value', x) for v, x in zip(e.input_variables, {warm_row})]; e.process(); " if warm else "")
-            rows_src = repr(rows).replace("nan", "np.nan").replace("inf", "np.inf")
-            res, err = {}, {}
+            res, err, mats = {}, {}, {}
             for mode in "ABC":
                 e = copy.deepcopy(start)
+                res[mode], mats[mode] = [], []
                 try:
-                    if mode == "A":
-                        per = []
-                        for row in rows:
-                            for iv, v in zip(e.input_variables, row):
-                                iv.value = float(v)
-                            e.process()
-                            per.append(_state(e))
-                        res[mode] = per
-                    else:
+                    for sg, sc in zip(segs, segs_c):
+                        if mode == "A":
+                            per = []
+                            for row in sg:
+                                for iv, v in zip(e.input_variables, row):
+                                    iv.value = float(v)
+                                e.process()
+                                per.append(_state(e))
+                            res[mode].append(per)
+                            continue
                         if mode == "B":
                             for j, iv in enumerate(e.input_variables):
-                                iv.value = np.array([row[j] for row in rows], dtype=float)
+                                iv.value = np.array([row[j] for row in sg], dtype=float)
                         else:
-                            e.input_values = np.array(rows, dtype=float)
+                            e.input_values = np.array(sc, dtype=float)
                         e.process()
-                        res[mode] = _state(e)
+                        res[mode].append(_state(e))
+                        try:
+                            mats[mode].append(np.array(e.output_values, dtype=float))
+                        except Exception as ex:  # noqa
+                            mats[mode].append(ex)
                 except Exception as ex:  # noqa
                     err[mode] = ex
-            how = {"A": f"for row in {rows_src}: [setattr(v, 'value', float(x)) for v, x in zip(e.input_variables, row)]; e.process(); print(e.output_values)",
-                   "B": f"X = np.array({rows_src}); [setattr(v, 'value', X[:, j]) for j, v in enumerate(e.input_variables)]; e.process(); e.output_values",
-                   "C": f"e.input_values = np.array({rows_src}); e.process(); e.output_values"}
+            lit = lambda x: repr(x).replace("nan", "np.nan").replace("inf", "np.inf")   # noqa
+            pre = f"{src}; e.restart()" + (f"; [setattr(v, 'value', x) for v, x in zip(e.input_variables, {warm_row})]; e.process()" if warm else "")
+            how = {"A": f"for row in {lit([r for sg in segs for r in sg])}:\n    [setattr(v, 'value', float(x)) for v, x in zip(e.input_variables, row)]; e.process(); print(e.output_values)",
+                   "B": f"for X in {lit(segs)}:\n    [setattr(v, 'value', np.array(X)[:, j]) for j, v in enumerate(e.input_variables)]; e.process(); print(e.output_values)",
+                   "C": f"for X in {lit(segs_c)}:\n    e.input_values = np.array(X); e.process(); print(e.output_values)"}
             for mode in "BC":
-                call = pre + how[mode] + "  # mode " + mode + "; reference (mode A): " + how["A"]
+                call = f"{pre}\n{how[mode]}\n# mode {mode}; reference (mode A) from the same state:\n# " + how["A"].replace("\n", "\n# ")
                 if (mode in err) != ("A" in err):
                     w = mode if mode in err else "A"
                     R.fail(f"batch-raises-only-in:{w}:{type(err[w]).__name__}", f"mode {'A' if w != 'A' else mode} does not raise", f"mode {w}: {type(err[w]).__name__}: {err[w]}", call)
                     continue
                 if mode in err:
+                    R.stats["both-raise"] = R.stats.get("both-raise", 0) + 1
                     continue
-                _cmp_modes(R, base, res["A"], res[mode], N, mode, call)
+                for q, sg in enumerate(segs):
+                    _cmp_modes(R, base, res["A"][q], res[mode][q], len(sg), f"{mode} (batch {q + 1} of {len(segs)})", call, mats[mode][q])
 
 
-def _cmp_modes(R, base, A, B, N, mode, call):
+def _cmp_modes(R, base, A, B, N, mode, call, mat):
     import numpy as np
+    shapes_ok = True
     for k, ov in enumerate(base.output_variables):
         dz = ov.defuzzifier
         dn = type(dz).__name__
         val, fz = B[k]
         a_vals = [_f(A[i][k][0]) for i in range(N)]
         if not ov.enabled:
+            if not all(_same(a, b) for a, b in zip(a_vals, [float(x) for x in np.broadcast_to(val, (N,))] if val.size in (1, N) else [])):
+                R.fail(f"batch-values:{dn}", f"disabled '{ov.name}' untouched: {a_vals}", f"mode {mode}: {val!r}", call)
             continue
         if (val.shape != (N,)) and not (N == 1 and val.size == 1):
-            why = "no-activations" if not fz else ("r=1" if getattr(dz, "resolution", None) == 1 else "other")
+            why = "no-activations" if not fz else ("r=1" if getattr(dz, "resolution", None) == 1 else
+                                                   ("scalar-degrees" if all(d.size == 1 for _, d in fz) else "other"))
             R.fail(f"batch-shape:{dn}:{why}", f"'{ov.name}': {N} values {a_vals}", f"mode {mode}: shape {val.shape}: {val!r}", call)
+            shapes_ok = False
             continue
         b_vals = [float(x) for x in val.reshape(-1)]
         worst = max(_cmp(a, b) for a, b in zip(a_vals, b_vals))
@@ -832,6 +853,17 @@ def _cmp_modes(R, base, A, B, N, mode, call):
                 worst, exp_f, got_f = w, (i, fa), (i, fb)
         if worst:
             R.fail("batch-rounding" if worst == 1 else "batch-fuzzy", f"'{ov.name}' row {exp_f[0]} (mode A): {exp_f[1]}", f"mode {mode}: {got_f[1]}", call)
+
+
+    # Engine.output_values (the documented observation point) once every variable holds N values
+    if shapes_ok and base.output_variables and all(ov.enabled for ov in base.output_variables):
+        want = [[_f(A[i][k][0]) for k in range(len(base.output_variables))] for i in range(N)]
+        if isinstance(mat, Exception):
+            R.fail(f"batch-raises-only-in:{mode[0]}:{type(mat).__name__}", "Engine.output_values does not raise (mode A)", f"{type(mat).__name__}: {mat}", call)
+        elif mat.shape != (N, len(want[0])):
+            R.fail("batch-shape:output_values", f"shape {(N, len(want[0]))}", f"mode {mode}: shape {mat.shape}", call)
+        elif max(_cmp(a, float(b)) for ra, rb in zip(want, mat) for a, b in zip(ra, rb)) == 2:
+            R.fail("batch-values:output_values", want, mat.tolist(), call)
 
 
 replay_batch = _entry(_batch)
